@@ -39,6 +39,9 @@ SELECTORS = [
     (["-o", "b.bin"], None, ["b.lst", "b.bin.lst"]),
     (["-o", "win.bin.bin"], None, ["win.bin.lst", "win.bin.bin.lst"]),
     ([], "make_bin \"plugin.bin\"\n", ["plugin.lst", "plugin.bin.lst"]),
+    # several directives: the listing goes beside the *first* output
+    ([], "make_bin \"first.bin\"\nmake_raw \"second.raw\"\n", ["first.lst", "first.bin.lst"]),
+    ([], "make_raw \"alpha2\"\nmake_bin \"beta.bin\"\nmake_wav \"gamma.wav\"\n", ["alpha2.lst"]),
 ]
 BASE = 0o2000
 
@@ -132,6 +135,11 @@ def build(feats, layout):
         tree["i/inc.mac"] = "start:\tnop\nil:\t.word il\nic = 12\n"
         ref["i/inc.mac"] = {"start": addr, "il": addr + 2, "ic": 0o12}
         addr += 4
+        # the including file goes on defining symbols after the include
+        main += "after:\tnop\nlate = 1\n"
+        ref["m.mac"]["after"] = addr
+        ref["m.mac"]["late"] = 1
+        addr += 2
     tree["m.mac"] = main
     return tree, files, ref, addr - BASE
 
